@@ -15,7 +15,7 @@ def run(ctx):
     RR.position_mapping(ctx, "R12.c")
     from . import r_token as RK
     RK.class_predicates(ctx, "R12.f")
-    RK.sibling_agreement(ctx, "R12.f", "R12.f", stages_too=False, only=("query",))
+    RK.sibling_agreement(ctx, "R12.f", "R12.f", stages_too=False, only=("query",), which_stages=("strip",))
     RS.memo_coherence(ctx, "R12.d")
     RS.consistency_group(ctx, "R12.d", frame=False)
     RR.priorities(ctx, "R12.e", "R12.e", match_before_rating=False)
